@@ -257,3 +257,10 @@ func Permutations(r *rand.Rand, n, max int) [][]int {
 	r.Shuffle(len(all), func(i, j int) { all[i], all[j] = all[j], all[i] })
 	return all[:max]
 }
+
+// BtreeExtremeInt: integer keys whose order-preserving encoding starts with the bytes FF FF (values >= 2^31 - 65536)
+// collide with the in-band stopper key of the third-party B-tree library; a B-tree index that receives one stops
+// answering lookups (listed finding). Generators keep them out of B-tree-indexed columns except in tagged cases.
+func BtreeExtremeInt(c rm.Cell) bool {
+	return !c.Null && c.K == rm.KInt && c.I >= 2147418112
+}
